@@ -67,6 +67,21 @@ def _pos_multiple(a, b):
     return r.is_const() and r.const_value() > 0
 
 
+def _not_arg(c):
+    """negation of a condition in App-argument form, comparisons rewritten (`not (d <= 0)` is `-d < 0`)"""
+    if c[0] == 'cmp' and len(c) == 3 and c[1] in ('<', '<='):
+        return ('cmp', '<' if c[1] == '<=' else '<=', -c[2])
+    if c[0] == 'cmp' and len(c) == 3 and c[1] in ('==', '!='):
+        return ('cmp', '!=' if c[1] == '==' else '==', c[2])
+    if c[0] == 'not':
+        return c[1]
+    if c[0] == 'and':
+        return ('or',) + tuple(_not_arg(x) for x in c[1:])
+    if c[0] == 'or':
+        return ('and',) + tuple(_not_arg(x) for x in c[1:])
+    return ('not', c)
+
+
 def _flat(conds):
     """conditions in App-argument form, conjunctions flattened, as a set of printable keys"""
     out = set()
@@ -396,10 +411,18 @@ def check_line(prog, rep, f):
         if at is None or at.name != 'ite':
             break
         cnds, val, prev = [at.args[0]], at.args[1], at.args[2]
+        # `if not better: keep else: take` is the same level written the other way round: the candidate's squared distance is
+        # the branch that is one of the computed distances
+        d2 = [c_[1] * c_[1] for c_ in cands.values() if isinstance(c_[1], Rat)]
+        if not any(val == x for x in d2) and any(prev == x for x in d2):
+            cnds, val, prev = [_not_arg(at.args[0])], at.args[2], at.args[1]
         inner = _one(val)
         if inner is not None and inner.name == 'ite' and inner.args[2] == prev:
             cnds.append(inner.args[0])
             val = inner.args[1]
+        elif inner is not None and inner.name == 'ite' and inner.args[1] == prev:
+            cnds.append(_not_arg(inner.args[0]))        # the inner test written the other way round
+            val = inner.args[2]
         levels.append((cnds, val, prev))
         N = prev
     base = N
